@@ -5,7 +5,80 @@ COMMON_TRUST = [
     "Kani models the dev profile (overflow checks on, debug assertions on) of the code in /repo's working tree",
 ]
 
+LOOP_ENV = [
+    "clock = ghost counter advancing by an arbitrary symbolic increment per reading (TscTimestamp::start/end stubbed): "
+    "every monotone clock history within the round bound is covered",
+    "timer = Tsc at 10^12 Hz with duration_since stubbed to (later - earlier): corollary of C11 (tsc::c11_tsc_floor_full "
+    "+ z3 lemma identity_at_1thz)",
+    "ThreadPool::par_extend stubbed to run the task for index 0..=aux sequentially on the caller (property C06 taken as an "
+    "assumption; also keeps catch_unwind, which ICEs kani-compiler 0.68, out of the program)",
+    "Timer::precision / Timer::bench_overheads return ghost values (precision as stated per cell, overheads zero)",
+    "fences are no-ops (inline asm); RandomState::new returns zero keys (getrandom syscall); Barrier::wait stubbed to an "
+    "event recorder where T >= 2",
+]
+
 META = {
+    "C01": {
+        "bounds": "six Bencher entry points on shapes {sized+Drop input by ref / by value, plain or sized+Drop output, "
+                  "ZST+Drop input and output (fast path), no-input + sized+Drop output}; sample size 2 (entry-point cells, "
+                  "concrete so that allocation sizes stay concrete) and symbolic 0..=3 (recorder called directly, ZST path); "
+                  "bench and test mode; configured thread count 3 for the _local forms; T=2 sequentialised for bench_refs; "
+                  "one round",
+        "outside": "real threads / interleavings (Kani has no thread model); the panic clause (Kani compiles with "
+                   "panic=abort: no unwinding); sample sizes > 3; the wiring of Bencher::input_counter through the loop "
+                   "(count_input closure in bench_loop_threaded: CBMC symex does not finish, attempt-only cell)",
+        "assumptions": COMMON_TRUST + LOOP_ENV + [
+            "values carry a ghost identity; destructors, generator, counter and benchmarked closure assert the life-cycle "
+            "automaton fresh->generated->counted->used->output dropped->input dropped and the phase (before/timed/after)",
+            "engine artefact ignored in bench::c01_zst_fast_path: CBMC reports 'memset destination region writeable' for "
+            "the 0-byte memset of MaybeUninit::<ZST>::zeroed()",
+        ],
+    },
+    "C02": {
+        "bounds": "same cells as C01: phase monitor on every generator / counter / call / destructor event relative to the "
+                  "two timestamps; allocation attribution: generator, call and destructors perform tally operations on the "
+                  "real thread-local tally and the sample's ThreadAllocInfo (returned by the recorder, or observed where the "
+                  "loop inspects RawSample.alloc_info) must contain exactly the calls' operations",
+        "outside": "hardware reordering around the fences (fences are stubbed; only their position between the phases is "
+                   "observed through the clock stubs); T > 2; allocation scripts other than one fixed-size operation per event",
+        "assumptions": COMMON_TRUST + LOOP_ENV + ["AllocOpMap::is_empty stubbed to an observer that records the RawSample's "
+                                                  "tallies and answers 'empty' (keeps the HashMap insert out of the formula)"],
+    },
+    "C03": {
+        "bounds": "grid (n, s, T) in {(2,1,1), (3,2,1), (3,1,2), (2,1,3), (0,1,1), (1,0,1)} (thorough adds (4,3,2), (5,1,4)); "
+                  "test mode with symbolic n, s >= 1 for T in {1,2}; default n (unset) for the first 3 rounds; all clock "
+                  "readings symbolic; the round bound is one more than the expected number of rounds so that an extra round "
+                  "is a reported failure, not a cut path",
+        "outside": "n = 100 run to completion (100 rounds x CBMC); attribute/CLI plumbing of n, s, T (C15); real threads",
+        "assumptions": COMMON_TRUST + LOOP_ENV + ["ThreadAllocInfo::try_current -> None and AllocOpMap::is_empty -> true in "
+                                                  "cells whose closures perform no allocation (their real values there)"],
+    },
+    "C04": {
+        "bounds": "(n, s, T) in {(2,1,1), (1,2,2), (default,1,1)}; max_time and min_time each unset / 0 / symbolic u32 ns; "
+                  "skip_ext_time unset / false / true; every clock reading symbolic (increments <= 10^6 ps); up to 3 rounds "
+                  "(thorough 4): the executed number of rounds equals the smallest satisfying the documented rule "
+                  "(continue-condition true before every executed round, false after the last)",
+        "outside": "durations >= 2^32 ns; more rounds than the bound (paths needing more are cut by an assume in the pool stub)",
+        "assumptions": COMMON_TRUST + LOOP_ENV,
+    },
+    "C05": {
+        "bounds": "N in {0,1,2,3} samples (thorough 4,5) with symbolic u16 durations (ties included), sample size 1..=8, "
+                  "optional constant counter; thorough: N=2 with u64 durations and one > 2^64 ps; per-input counters with "
+                  "N in {2,3} (thorough 4) distinct durations and symbolic per-sample counts; slice_middle for lengths 0..=7",
+        "outside": "allocation figures from a populated HashMap<u32, ThreadAllocInfo> (hashbrown + SipHash under CBMC does not "
+                   "finish: attempt-only cell, reported as not covered); sample size as any u32 (attempt-only); printing",
+        "assumptions": COMMON_TRUST + ["RandomState::new stubbed to zero keys (hash seeds do not influence asserted values)",
+                                       "median characterised by rank counting, not by sorting; ties: any minimal sample accepted"],
+    },
+    "C08": {
+        "bounds": "per-thread protocol conformance with Barrier::wait observed: recorder called with a Barrier for all three "
+                  "loop paths, sample size symbolic 0..=2; bench_refs through the loop on T=2 sequentialised threads",
+        "outside": "the interleavings themselves and both panic clauses (no threads, no unwinding under Kani). By reading, a "
+                   "panic on one of T>1 threads leaves the others blocked in Barrier::wait (hang instead of panic): this "
+                   "technique cannot exhibit it, so it is neither claimed nor listed as a finding of this check",
+        "assumptions": COMMON_TRUST + LOOP_ENV + ["std Barrier semantics + equal wait counts on all threads (checked per "
+                                                  "thread) imply the cross-thread statement (composition argument, not decided)"],
+    },
     "C09": {
         "bounds": "1 or 2 consecutive requests; kind, Layout (size any <= isize::MAX-(align-1), align 2^0..2^12), ptr, "
                   "new_size and the inner allocator's return value (any usize incl. 0) fully symbolic; "
@@ -31,8 +104,97 @@ META = {
             "(proved as step); histories of any length follow by induction",
         ],
     },
+    "C11": {
+        "bounds": "a, b, f symbolic over the full u64 range (f != 0) for TscTimestamp::duration_since (floor characterised "
+                  "without division: q*f <= n < q*f+f); dispatch through Timestamp::duration_since; every std Duration "
+                  "(secs any u64, nanos < 10^9); four z3 lemmas on the specification formula (monotone, additive within 1 ps, "
+                  "translation invariant, identity at 10^12 Hz) over unbounded integers restricted to the u64 ranges",
+        "outside": "the precision clause: Timer::measure_precision is an unbounded loop around 100 x delay iterations of the "
+                   "real clock (CBMC symex did not finish in 19 min in the design probes); OS timer (Instant)",
+        "assumptions": COMMON_TRUST + ["z3 4.8.12 and z3 5.1 must both answer unsat x4; the lemmas are about the formula, the "
+                                       "link to the code is the Kani equality"],
+    },
+    "C12": {
+        "bounds": "run-time registry kernel only: EntryList push/iter for 0..=3 nodes in any push order (symbolic "
+                  "permutation); shrink_array for OUT in {0,2,5,6} of IN=5",
+        "outside": "everything the #[divan::bench] / #[divan::bench_group] proc macros emit (a compiler plug-in over token "
+                   "streams: no bounded symbolic encoding of 'all programs' within reach), .init_array constructors, link "
+                   "order, types x consts product, module paths, display names",
+        "assumptions": COMMON_TRUST,
+    },
+    "C13": {
+        "bounds": "FilterSet::is_match with 0, 2, 3 (thorough 4) filters, each symbolic in polarity and kind; exact filters "
+                  "carry a symbolic 1-byte string (2-byte whole-string cell), regex filters an arbitrary-but-fixed verdict; "
+                  "SplitVec::insert for 3 and 4 symbolic inserts",
+        "outside": "regular-expression search semantics (regex-lite trusted), the text of the display path, tree pruning "
+                   "(EntryTree::retain: CBMC unrolls the recursive drop glue of removed subtrees and does not finish), clap",
+        "assumptions": COMMON_TRUST + ["regex_lite::Regex::is_match stubbed to an opaque verdict keyed by a filter id smuggled "
+                                       "through the never-dereferenced Regex value"],
+    },
+    "C14": {
+        "bounds": "list_benches()/test_benches()/run_benches()/main() for every runner configuration (action, ignore flags, "
+                  "sort direction symbolic) with run_action observed; run_bench_entry with Action::List on plain and args "
+                  "entries, ignore at entry and runner level and RunIgnored symbolic",
+        "outside": "the terse listing text and its agreement with a run on whole trees (run_tree_list vs run_tree: CBMC ran out "
+                   "of 24 GB in the design probes), feeding a path back as --exact, nextest/clap plumbing. By reading, "
+                   "run_tree_list evaluates `ignore` per node without inheritance or the runner override, so "
+                   "--list --format terse can disagree with a run under --ignored; not decided by this check",
+        "assumptions": COMMON_TRUST + ["Divan::run_action stubbed to a recorder (list_benches cell); TreePainter methods and "
+                                       "_print stubbed to recorders (list-arm cell)"],
+    },
+    "C15": {
+        "bounds": "BenchOptions::overwrite with every field of both sides independently unset/set (u32, Duration, bool, 3 "
+                  "thread lists, 4 counter kinds); three-level composition runner > benchmark > group; the real run_tree on "
+                  "module -> group -> group -> benchmark with three symbolic option sets (run_bench_entry replaced by a "
+                  "recorder); CounterSet/CounterCollection per kind incl. Bencher::counter; RunIgnored truth table; "
+                  "IntoThreads for usize, bool, [usize; 3]; has_samples and time defaults",
+        "outside": "clap definitions and DIVAN_* environment fallbacks; attribute macro -> BenchOptions literal (proc macro); "
+                   "the 0 -> available-parallelism mapping and final sort/dedup inside run_bench_entry (ipnsort under CBMC)",
+        "assumptions": COMMON_TRUST + ["per-loop unwinding: global bound 3 plus --unwindset for the 4-element "
+                                       "KnownCounterKind::ALL.map loop in the run_tree cells"],
+    },
+    "C16": {
+        "bounds": "cmp_bench_arg_names(Name) on digit strings of lengths (1,2), (2,2) (thorough (3,2)), negative vs positive, "
+                  "negative vs negative; Location = declaration order; with_tie_breakers table; cmp_int on digit runs "
+                  "(2,3), (3,1) (thorough (3,3)); natural_cmp on 1-byte strings over {0,1,9,a,<} (thorough: 'a'+digit, "
+                  "'a'+2 digits vs 'a'+1 digit)",
+        "outside": "float arguments (dec2flt), non-ASCII names, longer strings, transitivity over triples, std sort itself "
+                   "(trusted to permute), EntryConst::cmp_name through fn pointers, EntryTree::cmp_by_attr",
+        "assumptions": COMMON_TRUST + ["f64::from_str stubbed to Err and natural_cmp to a nondeterministic Ordering in the "
+                                       "integer-argument cells (the asserted branch returns before either is consulted)"],
+    },
+    "C17": {
+        "bounds": "BenchArgs::runner with 3 symbolic u8 arguments and a symbolic choice of the kept name pointer: index "
+                  "recovery, typed argument, TypeId rejection, the benchmark closure receives that argument, second runner "
+                  "call shares the list; &str items (name buffer reuse); slice_ptr_index for element sizes 1, 4, 16",
+        "outside": "macro-generated glue (ToStringHelper, Arg::get), const generics and type names, String/Box<str>/Cow reuse "
+                   "paths, lists longer than 3",
+        "assumptions": COMMON_TRUST + ["engine artefact ignored: 'memset destination region writeable' for mem::zeroed of the "
+                                       "zero-sized benchmark closure"],
+    },
+    "C18": {
+        "bounds": "TimeScale::from_picos / picos / suffix for every u128 value; scale_value for every non-negative f64 "
+                  "(incl. inf) and both byte formats; suffix tables; value/start division in the kilo bucket",
+        "outside": "digit truncation (format_f64 works on f64::to_string output: core::fmt / Grisu under CBMC ran out of 24 GB "
+                   "in the design probes), Display padding, throughput double rounding",
+        "assumptions": COMMON_TRUST,
+    },
+    "C19": {
+        "bounds": "sample_size unset; (n, T, precision) in {(1,1,10 ps), (2,1,1 ps with symbolic max_time), (1,2,1000 ps)} "
+                  "(thorough: symbolic precision 1..=2^20 ps, 4 rounds); clock increments symbolic in 0..=400 x precision; "
+                  "up to 3 rounds",
+        "outside": "more than 3 (4) doublings; u32 overflow of the doubled size after 32 rounds",
+        "assumptions": COMMON_TRUST + LOOP_ENV,
+    },
+    "C20": {
+        "bounds": "TreePainter with columns off: depth 3 with symbolic is_last at every level (prefix/branch glyphs, "
+                  "finish_parent restores), start_leaf line under a depth-2 parent",
+        "outside": "statistics rows, column padding / width growth, non-ASCII display width, thread-count sub-branches, the "
+                   "(ignored) marker line (attempt-only cell: CBMC memory), driver order on whole trees, stdout",
+        "assumptions": COMMON_TRUST + ["std::io::_print stubbed to a no-op; painter state (write_buf, current_prefix, depth) "
+                                       "inspected instead"],
+    },
 }
-
 
 
 def blank_result(name, desc):
@@ -122,6 +284,96 @@ CLAIMS = {
         "technique": _T + "; one inductive step from an arbitrary state",
     },
 }
+
+
+def _claim(text, note, technique=_T):
+    return {"text": text, "note": note, "technique": technique}
+
+
+CLAIMS.update({
+    "C01": _claim(
+        "Bounded model checking of the real sample recorder and sampling loop through the public Bencher entry points: "
+        "every generated value carries a ghost identity and the solver proves, for all values within the stated shapes and "
+        "sizes, the life cycle generated -> counted once -> used by exactly one call -> output dropped -> input dropped, on "
+        "one (sequentialised) thread, with CBMC's pointer checks covering the unsafe slot handling. Single-threaded part only.",
+        "Trusted: Kani/CBMC and the environment stubs listed in the evidence (clock, pool sequentialised, fences). Not "
+        "decided: real interleavings, the panic clause, Bencher::input_counter wiring through the loop."),
+    "C02": _claim(
+        "Same queries as C01 with a phase monitor: generator and counter events must precede the start timestamp, calls lie "
+        "between the two timestamps, every destructor follows the end timestamp; the ThreadAllocInfo attributed to the sample "
+        "equals exactly the tally operations scripted inside the benchmarked calls (generator and destructor operations "
+        "excluded), on the real thread-local tally.",
+        "Trusted: Kani/CBMC, stubs as in C01; fences are observed only by position. T > 2 and hardware reordering not decided."),
+    "C03": _claim(
+        "The whole bench_loop_threaded is executed symbolically with every clock reading symbolic: rounds = ceil(n/T), calls = "
+        "generated = s*T*ceil(n/T), stored samples = T*rounds, iter_count = samples*s on a grid of (n,s,T); zero calls for n=0 or "
+        "s=0; test mode: one call per thread, nothing stored. An extra or missing round is a solver counterexample.",
+        "Trusted: Kani/CBMC; threads sequentialised (C06 assumed); n=100 only for the first rounds."),
+    "C04": _claim(
+        "For symbolic min_time, max_time (unset/0/u32 ns), skip_ext_time and every clock history within 3-4 rounds the solver "
+        "proves the loop executes exactly the smallest number of rounds allowed by the documented rule (max_time priority, "
+        "elapsed from first start to latest end, or sum of slowest timed sections >= 1 ns when skipping external time).",
+        "Trusted: Kani/CBMC and the environment stubs; rounds beyond the bound and durations >= 2^32 ns are outside."),
+    "C05": _claim(
+        "compute_stats on N symbolic samples: fastest/slowest/median/mean equal the order statistics computed by rank counting "
+        "in exact integer picoseconds, orderings hold, counter figures are those of the samples that supplied the times, no "
+        "panic and no NaN including N = 0 (the pinned tree panicked there: fixed, see known_findings.json).",
+        "Trusted: Kani/CBMC. Allocation figures through the HashMap and arbitrary u32 sample sizes are attempt-only (not covered "
+        "when they do not finish)."),
+    "C08": _claim(
+        "Per-thread protocol conformance decided by the solver with Barrier::wait observed: exactly three rendezvous per "
+        "sample on every loop path, inputs generated before the first, tally cleared before the second, timed section after the "
+        "second, snapshot and drops after the third; each sequentialised thread's sample carries only its own tally.",
+        "Composition with std Barrier semantics is an argument, not a solver result; interleavings and both panic clauses are "
+        "outside (Kani has no threads and no unwinding)."),
+    "C11": _claim(
+        "TscTimestamp::duration_since equals floor((b-a)*10^12/f) (0 if b<a) for every a, b, f in u64 (f != 0), proved at full "
+        "width by CBMC with a division-free floor characterisation; Duration -> picoseconds exact for every Duration; "
+        "monotonicity, additivity within 1 ps and translation invariance follow from z3 lemmas on the same formula.",
+        "Trusted: Kani/CBMC, z3 (two versions diffed). The precision clause (measure_precision) is not decided.",
+        _T + " + z3 lemmas on the specification formula"),
+    "C12": _claim(
+        "Registry kernel only: for up to 3 entries pushed in any order the linked list yields each exactly once and nothing "
+        "else; shrink_array keeps the first OUT elements. The proc-macro half of the property is not decidable by this family.",
+        "Most of the statement (macro expansion, constructors, link order, types x consts) is outside; stated in the evidence."),
+    "C13": _claim(
+        "FilterSet::is_match decided for up to 3 (4) filters symbolic in polarity, kind and content with arbitrary regex "
+        "verdicts: selected iff no skip filter matches and (no positive filter or one matches); exact = whole-string equality; "
+        "SplitVec keeps skip filters before positive ones without loss or duplication.",
+        "regex-lite semantics trusted (verdict stub); path construction and tree pruning (EntryTree::retain) not decided."),
+    "C14": _claim(
+        "For every runner configuration list_benches() selects a list action (the pinned tree selected Test: fixed) and the "
+        "List arm of run_bench_entry never invokes the benchmark fn, the args runner or the statistics printer, painting the "
+        "entry as ignored iff its effective ignore says skip.",
+        "The terse listing text / agreement with a run on whole trees is not decided (CBMC memory); see the evidence."),
+    "C15": _claim(
+        "Per-field resolution decided for every combination of set/unset fields: overwrite algebra, three-level composition, "
+        "the real run_tree descent over two nested groups, per-kind counters incl. Bencher::counter, ignore truth table, thread "
+        "list normalisation.",
+        "clap/environment parsing and the proc-macro side are outside; 0 -> available parallelism inside run_bench_entry is outside."),
+    "C16": _claim(
+        "Comparator kernels decided on bounded strings: integer runtime arguments (incl. negatives) order by value under "
+        "--sort name (the pinned tree compared a with a: fixed), declaration order under location, tie-breaker table, cmp_int = "
+        "numeric comparison with leading zeros, natural_cmp antisymmetric on the bounded alphabet.",
+        "Floats, longer strings, transitivity, std sort and tree-level comparison are outside."),
+    "C17": _claim(
+        "Label -> index -> value kernel decided for 3 symbolic arguments and any kept name pointer: the case labelled L runs "
+        "with the argument whose rendering is L; wrong item types are rejected; the list is built once and shared.",
+        "Macro glue, longer lists and String/Cow reuse paths are outside."),
+    "C18": _claim(
+        "Unit / prefix selection decided over the full input domain: every u128 picosecond value and every non-negative f64 "
+        "picks the largest unit not exceeding it, tables match the documentation; scaled value = value/start (kilo bucket).",
+        "Digit truncation through f64::to_string is outside (core::fmt under CBMC exhausts memory)."),
+    "C19": _claim(
+        "Tuning branch of the real loop with symbolic clock: size starts at 1 and doubles exactly while "
+        "floor(slowest/precision) <= 100 (boundary value 100 witnessed by a cover), the passing round is the first recorded "
+        "sample at the final size, earlier samples are discarded, max_time also spans tuning rounds.",
+        "Trusted: Kani/CBMC and the environment stubs; 3-4 rounds."),
+    "C20": _claim(
+        "Painter kernel with columns off: for depth <= 3 and symbolic is_last flags every line is prefix ++ branch ++ name "
+        "with the documented glyphs and finish_parent restores the previous prefix and depth exactly.",
+        "Statistics rows, padding, the driver's traversal and stdout are outside."),
+})
 
 NOT_APPLICABLE = {
     "C06": "Broadcast over real threads (rendezvous channels, park/unpark, release/acquire): Kani has no thread model "
